@@ -180,6 +180,21 @@ class Desugarer:
             return expr  # lazy; run by its consumer
         if isinstance(expr, ast.Lambda):
             return expr
+        if isinstance(expr, ast.JoinedStr):
+            # f-string: hoist inside the formatted values, keep the FormattedValue wrappers in place
+            nj = copy.copy(expr)
+            vals = []
+            for v in expr.values:
+                if isinstance(v, ast.FormattedValue):
+                    nv = copy.copy(v)
+                    nv.value = self.hoist(v.value, pre)
+                    if v.format_spec is not None:
+                        nv.format_spec = self.hoist(v.format_spec, pre)
+                    vals.append(nv)
+                else:
+                    vals.append(v)
+            nj.values = vals
+            return nj
         new = copy.copy(expr)
         # children in evaluation order; operands evaluated *before* a hoisted call must be captured first, so that
         # `a.x == a.prop` still reads a.x before the property runs
